@@ -442,3 +442,106 @@ Proof.
   - intros E. unfold block_edges. rewrite E. reflexivity.
   - intros f E. unfold block_edges. rewrite E. cbn [fall_through]. destruct (find_block sorted f); reflexivity.
 Qed.
+
+(* ---------- ControlFlowGraph::new and refine_shallow never panic (for C15) ---------- *)
+Lemma insert_sorted_offsets : forall b s x, In x (offsets (insert_sorted_block b s)) <-> x = ab_off b \/ In x (offsets s).
+Proof.
+  intros b s x. unfold offsets. split; intros H.
+  - apply in_map_iff in H as (y & E & Hy).
+    eapply Permutation_in in Hy; [|apply Permutation_sym; apply insert_sorted_perm].
+    destruct Hy as [<-|Hy]; [now left|right; rewrite <- E; now apply in_map].
+  - assert (P : Permutation (b :: s) (insert_sorted_block b s)) by apply insert_sorted_perm.
+    destruct H as [->|H].
+    + apply in_map. eapply Permutation_in; [exact P|now left].
+    + apply in_map_iff in H as (y & E & Hy). rewrite <- E. apply in_map.
+      eapply Permutation_in; [exact P|now right].
+Qed.
+
+Lemma by_offset_total : forall blocks acc,
+  NoDup (offsets blocks) -> (forall x, In x (offsets blocks) -> ~ In x (offsets acc)) ->
+  exists sorted, by_offset blocks acc = Ok sorted.
+Proof.
+  induction blocks as [|b r IH]; intros acc Hnd Hdis; cbn [by_offset]; [eauto|].
+  unfold offsets in Hnd. cbn [map] in Hnd. inversion Hnd as [|? ? Hn Hr]; subst.
+  unfold insert_block.
+  destruct (existsb (fun x => ab_off x =? ab_off b) acc) eqn:E.
+  - exfalso. apply existsb_exists in E as (x & Hx & Ex). apply Z.eqb_eq in Ex.
+    apply (Hdis (ab_off b)); [cbn; now left|]. unfold offsets. rewrite <- Ex. now apply in_map.
+  - cbn [bind]. apply IH; [exact Hr|].
+    intros x Hx Hin. apply insert_sorted_offsets in Hin as [->|Hin].
+    + apply Hn. exact Hx.
+    + apply (Hdis x); [cbn; now right|exact Hin].
+Qed.
+
+Theorem cfg_new_total : forall blocks, NoDup (offsets blocks) -> exists g, cfg_new blocks = Ok g.
+Proof.
+  intros blocks Hnd. unfold cfg_new.
+  destruct (by_offset_total blocks [] Hnd) as [sorted E]; [intros x _ []|].
+  rewrite E. cbn [bind]. eauto.
+Qed.
+
+Definition exit_translates (b : ablock) : Prop := exists z, exit_to_z3 (ab_exit b) = Ok z.
+
+Lemma edge_query_total : forall sorted jts b e,
+  NoDup (offsets sorted) -> In b sorted -> exit_translates b ->
+  (forall t, In t jts -> In t (offsets sorted)) ->
+  In e (block_edges sorted jts b) -> exists q, edge_query sorted e = Ok q.
+Proof.
+  intros sorted jts b e Nd Hb [z Hz] Hj He.
+  pose proof (find_block_unique _ _ Nd Hb) as Hfb.
+  assert (Hfind : forall t, In t (offsets sorted) -> exists to, find_block sorted t = Some to).
+  { intros t Ht. unfold offsets in Ht. apply in_map_iff in Ht as (to & <- & Hto). now apply find_block_some. }
+  unfold block_edges in He. unfold edge_query.
+  destruct (ab_exit b) as [|f|u|c t f] eqn:Ex; cbn [fall_through] in He.
+  - (* Terminate *) destruct He as [<-|[]]. cbn [fst snd]. rewrite Hfb.
+    unfold shallow_terminate. rewrite Ex. cbn. eauto.
+  - (* FallThrough *)
+    destruct (find_block sorted f) as [to|] eqn:Ef; destruct He as [<-|[]]; cbn [fst snd]; rewrite Hfb.
+    + rewrite Ef. unfold shallow_block. rewrite Ex. cbn. eauto.
+    + unfold shallow_terminate. rewrite Ex. cbn. eauto.
+  - (* Unconditional *)
+    cbn [exit_to_z3] in Hz.
+    destruct (tr_sexpr_from 0 u) as [[zt n]|er|p] eqn:Et; cbn [bind] in Hz; try discriminate.
+    cbn [app In] in He. destruct He as [<-|He]; cbn [fst snd]; rewrite ?Hfb.
+    + unfold shallow_bad_jump. rewrite Ex. cbn [exit_to_z3]. rewrite Et. cbn. eauto.
+    + apply in_map_iff in He as (t & <- & Ht). apply filter_In in Ht as [Ht _]. cbn [fst snd]. rewrite Hfb.
+      destruct (Hfind t (Hj t Ht)) as [to Eto]. rewrite Eto.
+      unfold shallow_block. rewrite Ex. cbn [exit_to_z3]. rewrite Et. cbn. eauto.
+  - (* Branch *)
+    cbn [exit_to_z3] in Hz.
+    destruct (tr_sexpr_from 0 t) as [[zt n]|er|p] eqn:Et; cbn [bind fst snd] in Hz; try discriminate.
+    destruct (tr_sexpr_from n c) as [[zc n']|er|p] eqn:Ec; cbn [bind fst snd] in Hz; try discriminate.
+    assert (Hzz : exit_to_z3 (ABranch c t f) = Ok (ZBranch zc zt f)).
+    { cbn [exit_to_z3]. rewrite Et. cbn [bind fst snd]. rewrite Ec. reflexivity. }
+    apply in_app_or in He as [He|He].
+    + destruct (find_block sorted f) as [to|] eqn:Ef; destruct He as [<-|[]]; cbn [fst snd]; rewrite Hfb.
+      * rewrite Ef. unfold shallow_block. rewrite Ex, Hzz. cbn. eauto.
+      * unfold shallow_terminate. rewrite Ex, Hzz. cbn. eauto.
+    + cbn [app In] in He. destruct He as [<-|He]; cbn [fst snd]; rewrite ?Hfb.
+      * unfold shallow_bad_jump. rewrite Ex, Hzz. cbn. eauto.
+      * apply in_map_iff in He as (t' & <- & Ht). apply filter_In in Ht as [Ht _]. cbn [fst snd]. rewrite Hfb.
+        destruct (Hfind t' (Hj t' Ht)) as [to Eto]. rewrite Eto.
+        unfold shallow_block. rewrite Ex, Hzz. cbn. eauto.
+Qed.
+
+Theorem refine_total : forall solver blocks g,
+  cfg_new blocks = Ok g -> Forall exit_translates blocks ->
+  exists g', refine solver g = Ok g'.
+Proof.
+  intros solver blocks g H Htr.
+  destruct (cfg_new_wf _ _ H) as (P & Nd & _ & _ & Hjt).
+  assert (Hall : forall e, In e (g_edges g) -> exists q, edge_query (g_blocks g) e = Ok q).
+  { intros e He. unfold cfg_new in H.
+    destruct (by_offset blocks []) as [s|er|p] eqn:Eb; cbn [bind] in H; try discriminate.
+    inversion H; subst. cbn [g_blocks g_edges] in *.
+    apply in_concat in He as (es & Hes & Hine). apply in_map_iff in Hes as (b & <- & Hb).
+    apply (edge_query_total s (map ab_off (filter ab_jt blocks)) b e); [exact Nd|exact Hb| | |exact Hine].
+    - rewrite Forall_forall in Htr. apply Htr. apply in_rev. eapply Permutation_in; [apply Permutation_sym; exact P|exact Hb].
+    - intros t Ht. destruct (Hjt t Ht) as (to & Hto & _ & <-). unfold offsets. now apply in_map. }
+  unfold refine.
+  assert (Hre : exists es, refine_edges solver (g_blocks g) (g_edges g) = Ok es).
+  { revert Hall. generalize (g_edges g) as l. induction l as [|e r IH]; intros Hall; cbn [refine_edges]; [eauto|].
+    destruct (Hall e (or_introl eq_refl)) as [q Eq]. rewrite Eq. cbn [bind].
+    destruct IH as [es Ees]; [intros x Hx; apply Hall; now right|]. rewrite Ees. cbn [bind]. eauto. }
+  destruct Hre as [es Ees]. rewrite Ees. cbn [bind]. eauto.
+Qed.
